@@ -370,6 +370,10 @@ def enumerate_faults(oplog, user_writes, rng=None, interrupts=12):
                     faults.append({"kind": "torn", "op": k, "n": n})
             for n in sorted({0, ln // 2}):
                 faults.append({"kind": "enospc", "op": k, "n": n})
+            # short write (count returned, no error): the other face of a full disk / a file-size limit
+            for n in sorted({ln // 2} | ({0, max(ln - 1, 0)} if info.get("raw") else set())):
+                if n < ln:
+                    faults.append({"kind": "short", "op": k, "n": n})
     js = set(range(min(user_writes, 4))) | set(range(max(0, user_writes - 4), user_writes))
     if rng is not None and user_writes > 8:
         for _ in range(interrupts):
@@ -380,20 +384,20 @@ def enumerate_faults(oplog, user_writes, rng=None, interrupts=12):
 
 
 def random_fault(rng, oplog, user_writes):
-    kind = rng.weighted(["crash_before", "crash_after", "torn", "enospc", "interrupt"], [3, 3, 3, 1, 1])
+    kind = rng.weighted(["crash_before", "crash_after", "torn", "enospc", "interrupt", "short"], [3, 3, 3, 1, 1, 1])
     writes = [o for o in oplog if o[1] == "write"]
-    if kind in ("torn", "enospc") and not writes:
+    if kind in ("torn", "enospc", "short") and not writes:
         kind = "crash_after"
     if kind in ("crash_before", "crash_after"):
         # bias towards the rename / remove tail where the protocol state changes
         tail = [o for o in oplog if o[1] in ("rename", "remove", "close", "stat", "open_w")]
         o = rng.choice(tail) if tail and rng.bernoulli(0.6) else rng.choice(oplog)
         return {"kind": kind, "op": o[0]}
-    if kind in ("torn", "enospc"):
+    if kind in ("torn", "enospc", "short"):
         o = rng.choice(writes)
         ln = o[3]["len"]
         n = rng.choice([0, 1, ln // 2, max(ln - 1, 0), rng.randint(0, max(ln - 1, 0))])
-        n = min(n, max(ln - 1, 0)) if kind == "torn" else min(n, ln)
+        n = min(n, max(ln - 1, 0)) if kind in ("torn", "short") else min(n, ln)
         return {"kind": kind, "op": o[0], "n": n}
     return {"kind": "interrupt", "call": rng.randint(0, max(user_writes - 1, 0))}
 
